@@ -33,6 +33,12 @@ def run(chk):
               "é", "\x00", "send [USD 1] (source = @a destination = @b" + ")" * 50, "{" * 200, "[" * 200 + "]" * 200,
               "send " + "[USD 1] + " * 300 + "[USD 1] (source = @a destination = @b)",
               "1" * 5000, "-" * 300, "9" * 30 + "/" + "9" * 30, "9" * 40 + "." + "9" * 40 + "%"]
+    import gen_exec
+    for n in gen_exec.boundary_ints():
+        a = str(n)
+        for lit in (a + "%", a[:2] + "." + a[2:] + "%" if len(a) > 2 else a + "%", a + "/" + a, "1/" + a, a, "-" + a):
+            texts.append("send [USD 1] (\n source = @world\n destination = { %s to @a remaining kept }\n)\n" % lit
+                         if not lit.lstrip("-").isdigit() else "send [USD %s] (\n source = @world\n destination = @a\n)\n" % lit)
     texts = list(dict.fromkeys(texts))
     gos = runner.run_go([{"id": i, "op": "parse", "script": t} for i, t in enumerate(texts)])
     fails = []
@@ -67,7 +73,9 @@ def run(chk):
                 stats["distinct_nontrivial"] += 1
         if why:
             fails.append(({"script": t}, {"parseErrors": errs}, None, why[:3], site))
-    for c, go, m, why, site in fails[:12]:
+    unknown = [f for f in fails if not f[4]]
+    known = [f for f in fails if f[4]]
+    for c, go, m, why, site in unknown[:10] + known[:3]:
         chk.violation("oracle", case=c, go=go, model=m, oracle=why, site=site)
     if not [f for f in fails if True] or all(f[4] for f in fails):
         for t in broken:
